@@ -26,7 +26,7 @@ from checks.common import Report
 from checks.typerel import Decider, tables, fmt_type, parse_tree, member, DEPTH
 from sqvm.qv import QV
 from sqvm.typesem import Unsupported
-from sqvm.gen_types import programs as gen_type_programs
+from sqvm.gen_types import programs as gen_type_programs, rec_left_types, rec_right_types, rec_program
 from sqvm.corpus import std_sources, example_sources, test_sources, spec_sources
 
 PROP = "C09"
@@ -144,6 +144,75 @@ def check_program(args):
     return out
 
 
+def check_rec(args):
+    """recursive types against their unfoldings: every left tuple type against every union of two
+    such tuples of this chunk, both directions"""
+    name, rights, seed = args
+    out = {"name": name, "compiled": False, "types": 0, "candidates": 0, "pairs": 0, "compat_true": 0,
+           "overlap_false": 0, "goals": 0, "ok": 0, "fail": [], "inconclusive": [], "queries": 0, "solver_s": 0.0,
+           "vacuous": 0, "transitivity_triples": 0, "samples": []}
+    lefts = rec_left_types()
+    src = rec_program(lefts, rights)
+    with QV() as qv:
+        c = qv.compile(src)
+        if not c.get("ok"):
+            out["inconclusive"].append("%s: generated program rejected: %s" % (name, str(c.get("error"))[:120]))
+            return out
+        out["compiled"] = True
+        types, tuples = tables(c["bytecode"])
+        out["types"] = len(types)
+        r = qv.req(op="run", h=c["h"], max_steps=1_000_000).get("result", {})
+        fns = (r.get("value") or {}).get("v") or []
+        if len(fns) != len(lefts) + len(rights):
+            out["inconclusive"].append("%s: generated program does not evaluate to its functions" % name)
+            return out
+        pt = [types[c["bytecode"]["functions"][f["id"]]["type_id"]]["fn"]["parameter"] for f in fns]
+        A, Bs = pt[:len(lefts)], pt[len(lefts):]
+        D = Decider(types, tuples)
+        pairs = [(a, b) for a in A for b in Bs] + [(b, a) for a in A for b in Bs]
+        pairs = [(a, b) for a, b in pairs if D.supported(a) and D.supported(b)]
+        out["candidates"] = len(A) + len(Bs)
+        out["pairs"] = len(pairs)
+        compat = qv.req(op="is_compatible", h=c["h"], pairs=pairs)["results"]
+        overlap = qv.req(op="is_compatible", h=c["h"], pairs=pairs, mode="overlap")["results"]
+        for (a, b), cv, ov in zip(pairs, compat, overlap):
+            if not cv and ov:
+                continue
+            fa, fb = fmt_type(types, tuples, a, 5), fmt_type(types, tuples, b, 5)
+            out["goals"] += 1
+            if cv:
+                out["compat_true"] += 1
+                rr, tree = D.check(D.under(a), z3.Not(D.over(b)))
+                kind, why = "assignable-not-contained(%s <= %s)" % (fa, fb), "is_compatible(%s, %s) is true but the value %s is in the first and not in the second"
+                inside, outside = [a], [b]
+            else:
+                out["overlap_false"] += 1
+                rr, tree = D.check(D.under(a), D.under(b))
+                kind, why = "overlap-missed(%s & %s)" % (fa, fb), "types_overlap(%s, %s) is false but the value %s is in both"
+                inside, outside = [a, b], []
+            if rr == "unsat":
+                out["ok"] += 1
+            elif rr == "sat":
+                try:
+                    tr = parse_tree(tree)
+                    okc = all(member(types, tuples, t, tr) for t in inside) and not any(member(types, tuples, t, tr) for t in outside)
+                except Exception:
+                    okc = False
+                if okc:
+                    out["fail"].append({"key": "gen_rec:" + kind, "why": why % (fa, fb, tree), "source": src, "a": a, "b": b, "value": tree})
+                    if len(out["fail"]) >= 4:
+                        break
+                else:
+                    out["inconclusive"].append("%s: model %s for %s not confirmed by the plain evaluator" % (name, tree, kind))
+            else:
+                out["inconclusive"].append("%s: solver unknown on %s" % (name, kind))
+        out["queries"] = D.queries
+        out["solver_s"] = D.solver_s
+        out["samples"].append({"program": name, "types_in_table": len(types), "pairs": len(pairs),
+                               "assignable_pairs": out["compat_true"], "disjoint_pairs": out["overlap_false"]})
+    return out
+
+
 def main():
     rep = Report(PROP, level="translation_validation")
     tier = rep.tier
@@ -160,8 +229,14 @@ def main():
         gen = [g for i, g in enumerate(gen) if i % 3 == rep.seed % 3]
     max_types = 14 if tier == "quick" else 28
     jobs = [(n, s, max_types, rep.seed) for n, s in gen + corpus]
+    rights = rec_right_types()
+    chunks = [rights[i:i + 20] for i in range(0, len(rights), 20)]
+    if tier == "quick":
+        chunks = rnd.sample(chunks, 32)
+    rec_jobs = [("gen_rec/%d" % i, ch, rep.seed) for i, ch in enumerate(chunks)]
     with mp.Pool(16) as pool:
         results = pool.map(check_program, jobs, chunksize=2)
+        results += pool.map(check_rec, rec_jobs, chunksize=1)
     progs = 0
     tot = {"pairs": 0, "compat_true": 0, "overlap_false": 0, "vacuous": 0, "transitivity_triples": 0, "candidates": 0}
     for r in results:
@@ -191,8 +266,8 @@ def main():
                      "(run by the real code on the real type tables of %d programs; %d ordered type pairs)" % (progs, tot["pairs"])]
     rep.bounds = {"value depth": DEPTH, "tuple arity": 8,
                   "types": "closed first-order types (int, bin, tuples, unions, recursive types, partial types over the program's own tuples); up to %d distinct types per program" % max_types,
-                  "programs": "generated type families (sqvm/gen_types.py: %d pairs of 36 type expressions) + std + examples%s" % (
-                      len(gen), " + test-suite and spec sources" if tier == "thorough" else ""),
+                  "programs": "generated type families (sqvm/gen_types.py: %d pairs of 36 type expressions; %d chunks of the recursive family = 169 tuples P[X, Y] over {two recursive lists, four one-step unfoldings, their Cons cells, int} against unions of two such tuples, both directions) + std + examples%s" % (
+                      len(gen), len(chunks), " + test-suite and spec sources" if tier == "thorough" else ""),
                   "not covered": "function, process, resource, ref and generic types; values deeper than 3; narrowing's intersect/complement (private to the compiler crate)"}
     rep.assumptions = ["the meaning of a type is the set of value trees defined in sqvm/typesem.py (partial types: closed world over the program's tuple table)",
                        "a containment counterexample must be a value of A within depth 3 that is outside B at any depth (under/over approximation at the depth limit)"]
